@@ -16,6 +16,9 @@ RULE = (
     'run through the real calc_power; each followed by its transformations (permutation, translation by whole cells along each axis with wrap, other thread counts, pos2=pos, '
     'a different particle set for the particle-independent columns). non-trivial = distinct (base configuration, transformation) pairs with >= 2 populated k bins'
 )
+RULE += (
+    ' Added after seeded round 9: thin-slab particle sets (all within two cells of x=0) and catalogues of 16-250 weighted particles: thread counts 1/2/4/7/16 and x translations.'
+)
 ASSUMPTIONS = [
     'power/poles compared at 2e-4 and k_avg at 1e-3 of the column maximum (float32 accumulation over up to 1e5 modes per bin; observed noise: power <= 2e-6, k_avg <= 2.2e-5); N_mode, ranges, shapes compared exactly',
     'only the symmetries listed in the statement are asserted',
